@@ -43,6 +43,13 @@ pub fn instance_for(ctx: &Ctx, idx: u64) -> (Value, String, String) {
         opts.rotation_rich = rng.chance(1, 2);
     }
     let tag = format!("s{}c{}", ctx.seed, idx);
+    if idx % 100 == 11 {
+        // shifted chain: many locations, one more vehicle would save many dead-head trips
+        return (gen::chain_network(&mut rng, &tag), tag, "shifted_chain".to_string());
+    }
+    if idx % 100 == 57 {
+        return (gen::gap_network(&mut rng, &tag), tag, "gap_network".to_string());
+    }
     let input = gen::generate(&mut rng, &opts, &tag);
     (input, tag, profile.name().to_string())
 }
